@@ -860,7 +860,8 @@ pub fn t_extern(a: &[i64]) -> Val {
     if a[1] != 0 {
         t_attrs.push(A::integer_fn("singleton", a[2] as isize));
     }
-    let mut e_attrs: Vec<A> = vec![];
+    // the enum is copyable: the accessor pyxis emits for an enum singleton (`*(A as *const Self)`) only compiles for Copy enums
+    let mut e_attrs: Vec<A> = vec![A::copyable()];
     if a[3] != 0 {
         e_attrs.push(A::integer_fn("singleton", a[4] as isize));
     }
